@@ -359,6 +359,76 @@ Proof.
     + intro x. rewrite !map_fst_keyed. intro H; exact H.
 Qed.
 
+
+(* ------------------------------------------------------------------ (S): values against the final label table *)
+Definition env_lab (L : tenv) (rho : env) : Prop :=
+  forall x v, lookup x rho = Some v -> exists t, tlookup x L = Some t /\ repr t v.
+Definition env_lab_ex (i : ident) (L : tenv) (rho : env) : Prop :=
+  forall x v, text_eqb x i = false -> lookup x rho = Some v -> exists t, tlookup x L = Some t /\ repr t v.
+
+Definition ev_ok (L : tenv) (rets : list ty) (e : tev) : Prop :=
+  match e with
+  | TAssign x v => exists t, tlookup x L = Some t /\ repr t v
+  | TLoopVar _ v => repr TInt v
+  | TReturn v => exists t, In t rets /\ scalar t = true /\ repr t v
+  end.
+
+Lemma env_lab_sound L rho : env_lab L rho -> env_sound L rho.
+Proof. intros H x v Hl. destruct (H x v Hl) as (t & Ht & Hr). unfold tget. rewrite Ht. exact Hr. Qed.
+
+Lemma env_lab_bind L rho x v t : env_lab L rho -> tlookup x L = Some t -> repr t v -> env_lab L ((x, v) :: rho).
+Proof.
+  intros H HL Hr y w Hl. unfold lookup in Hl. cbn [tlookup] in Hl. destruct (text_eqb y x) eqn:E.
+  - apply text_eqb_eq in E. subst y. inversion Hl; subst w. exists t. split; assumption.
+  - apply H. exact Hl.
+Qed.
+
+Lemma ev_ok_mono L R R1 e : incl R R1 -> ev_ok L R e -> ev_ok L R1 e.
+Proof.
+  intros Hi. destruct e; cbn; try (intro H; exact H).
+  intros (t & Hin & Hs & Hr). exists t. split; [apply Hi; exact Hin | split; assumption].
+Qed.
+
+Lemma lookup_env_remove i rho x : lookup x (env_remove i rho) = if text_eqb x i then None else lookup x rho.
+Proof.
+  unfold lookup, env_remove. induction rho as [|[k v] r IH]; cbn [filter tlookup fst].
+  - destruct (text_eqb x i); reflexivity.
+  - destruct (text_eqb i k) eqn:Eik; cbn [negb].
+    + rewrite IH. apply text_eqb_eq in Eik. subst k. destruct (text_eqb x i); reflexivity.
+    + cbn [tlookup]. rewrite IH. destruct (text_eqb x k) eqn:Exk; [|reflexivity].
+      apply text_eqb_eq in Exk. subst k. rewrite InferP.text_eqb_sym, Eik. reflexivity.
+Qed.
+
+Lemma iter_while_ok (P : env -> Prop) (Q : tev -> Prop) f :
+  (forall orc rho orc1 rho1 tr ret, P rho -> f orc rho = Ok (orc1, rho1, tr, ret) -> P rho1 /\ Forall Q tr) ->
+  forall n orc rho orc1 rho1 tr ret, P rho -> iter_while f n orc rho = Ok (orc1, rho1, tr, ret) -> P rho1 /\ Forall Q tr.
+Proof.
+  intros Hf. induction n as [|n IH]; intros orc rho orc1 rho1 tr ret HP Hrun; cbn [iter_while] in Hrun.
+  - inversion Hrun; subst. split; [exact HP | constructor].
+  - destruct (f orc rho) as [[[[o2 r2] t2] b2]|] eqn:E; [|discriminate].
+    destruct (Hf _ _ _ _ _ _ HP E) as [HP2 HQ2]. destruct b2.
+    + inversion Hrun; subst. split; assumption.
+    + destruct (iter_while f n o2 r2) as [[[[o3 r3] t3] b3]|] eqn:E3; [|discriminate].
+      inversion Hrun; subst. destruct (IH _ _ _ _ _ _ HP2 E3) as [HP3 HQ3].
+      split; [exact HP3 | apply Forall_app; split; assumption].
+Qed.
+
+Lemma iter_for_ok (P : env -> Prop) (P1 : env -> Prop) (Q : tev -> Prop) f i :
+  (forall rho j, P rho -> P1 ((i, VInt j) :: rho)) ->
+  (forall orc rho orc1 rho1 tr ret, P1 rho -> f orc rho = Ok (orc1, rho1, tr, ret) -> P rho1 /\ Forall Q tr) ->
+  (forall j, Q (TLoopVar i (VInt j))) ->
+  forall n j orc rho orc1 rho1 tr ret, P rho -> iter_for f i n j orc rho = Ok (orc1, rho1, tr, ret) -> P rho1 /\ Forall Q tr.
+Proof.
+  intros Hbind Hf Hq. induction n as [|n IH]; intros j orc rho orc1 rho1 tr ret HP Hrun; cbn [iter_for] in Hrun.
+  - inversion Hrun; subst. split; [exact HP | constructor].
+  - destruct (f orc ((i, VInt j) :: rho)) as [[[[o2 r2] t2] b2]|] eqn:E; [|discriminate].
+    destruct (Hf _ _ _ _ _ _ (Hbind rho j HP) E) as [HP2 HQ2]. destruct b2.
+    + inversion Hrun; subst. split; [exact HP2 | constructor; [apply Hq | exact HQ2]].
+    + destruct (iter_for f i n (j + 1) o2 r2) as [[[[o3 r3] t3] b3]|] eqn:E3; [|discriminate].
+      inversion Hrun; subst. destruct (IH _ _ _ _ _ _ _ HP2 E3) as [HP3 HQ3].
+      split; [exact HP3 | constructor; [apply Hq | apply Forall_app; split; assumption]].
+Qed.
+
 Section Ctl.
   Variable S : Type.
   Variable call : list ident -> (S * option pmap) -> tenv -> ident -> list ty -> (S * option pmap) * option ty.
@@ -408,7 +478,17 @@ Section Ctl.
     guard F A C G e = true /\ guard F A C L e = true /\ ety F A C G e = t /\ ety F A C L e = t.
   Proof.
     unfold expr_ok. intro H. apply andb_true_iff in H as [H H4]. apply andb_true_iff in H as [H H3].
-    apply andb_true_iff in H as [H1 H2]. apply ty_eqb_eq in H3. apply ty_eqb_eq in H4. repeat split; assumption.
+    apply andb_true_iff in H as [H _]. apply andb_true_iff in H as [H1 H2].
+    apply ty_eqb_eq in H3. apply ty_eqb_eq in H4. repeat split; assumption.
+  Qed.
+  Lemma typed_some G e : typed C F A G e = true -> exists G1, infer_s F A C G e = Some (ety F A C G e, G1).
+  Proof.
+    unfold typed, ety. destruct (infer_s F A C G e) as [[t G1]|]; [|discriminate]. intros _. exists G1. reflexivity.
+  Qed.
+  Lemma expr_ok_typed L G e t : expr_ok C F A L G e t = true -> typed C F A L e = true.
+  Proof.
+    unfold expr_ok. intro H. apply andb_true_iff in H as [H _]. apply andb_true_iff in H as [H _].
+    apply andb_true_iff in H as [_ H]. exact H.
   Qed.
 
   Lemma list_clash_false (t : ty) (b : bool) :
@@ -496,7 +576,7 @@ Section Ctl.
     intros Hs Hw Hok Hrun. unfold assignr_ok in Hok.
     destruct (tlookup x L) as [t|] eqn:HL; [|discriminate].
     apply andb_true_iff in Hok as [Hok _]. apply andb_true_iff in Hok as [Hok Ht].
-    apply andb_true_iff in Hok as [Hg _]. apply ty_eqb_eq in Ht.
+    apply andb_true_iff in Hok as [Hok _]. apply andb_true_iff in Hok as [Hg _]. apply ty_eqb_eq in Ht.
     unfold do_assign_r, infer_rd in Hrun.
     pose proof (infer_rhs_sim (d_decl (st_ctx st)) r s (d_promo (st_ctx st)) (d_types (st_ctx st)) Hs) as Hi.
     destruct (infer_rhs (S * option pmap) (call (d_decl (st_ctx st))) C (s, d_promo (st_ctx st)) (d_types (st_ctx st)) r)
@@ -520,7 +600,12 @@ Section Ctl.
     guard F A C G e = true /\ guard F A C L e = true /\ scalar (ety F A C L e) = true /\ ety F A C G e = ety F A C L e.
   Proof.
     unfold ret_ok. intro H. apply andb_true_iff in H as [H H4]. apply andb_true_iff in H as [H H3].
-    apply andb_true_iff in H as [H1 H2]. apply ty_eqb_eq in H4. repeat split; assumption.
+    apply andb_true_iff in H as [H _]. apply andb_true_iff in H as [H1 H2]. apply ty_eqb_eq in H4. repeat split; assumption.
+  Qed.
+  Lemma ret_ok_typed L G e : ret_ok C F A L G e = true -> typed C F A L e = true.
+  Proof.
+    unfold ret_ok. intro H. apply andb_true_iff in H as [H _]. apply andb_true_iff in H as [H _].
+    apply andb_true_iff in H as [_ H]. exact H.
   Qed.
 
   Lemma return_step_gen L outer base s st e s1 st1 :
@@ -762,4 +847,369 @@ Section Ctl.
     - (* ONone *) exact I.
     - (* OSome *) intros b Hb. exact Hb.
   Qed.
+
+  (* ------------------------------------------------------------------ (S) *)
+  Definition PS_stmt (x : stmt) : Prop := forall L outer base s st s1 st1 orc rho orc1 rho1 tr ret,
+    Inv s -> wf L outer base st -> gds L s st x = true -> run_s s st x = Some (s1, st1) ->
+    env_lab L rho -> exec_stmt orc rho x = Ok (orc1, rho1, tr, ret) ->
+    env_lab L rho1 /\ Forall (ev_ok L (a_rets (st_acc st1))) tr.
+  Definition PS_block (b : block) : Prop := forall L outer base s st s1 st1 orc rho orc1 rho1 tr ret,
+    Inv s -> wf L outer base st -> gdb L s st b = true -> run_b s st b = Some (s1, st1) ->
+    env_lab L rho -> exec_block orc rho b = Ok (orc1, rho1, tr, ret) ->
+    env_lab L rho1 /\ Forall (ev_ok L (a_rets (st_acc st1))) tr.
+  Definition PS_branches (brs : branches) : Prop := forall L outerc s base p a s2 kids p2 a2 k orc rho orc1 rho1 tr ret,
+    Inv s ->
+    (forall p' a', wf L outerc (d_decl base) (mk_bstate (mk_dctx (d_types base) (d_decl base) p') [] a')) ->
+    gdbrs L s base p a brs = true -> run_brs s base p a brs = Some (s2, kids, p2, a2) ->
+    env_lab L rho -> exec_branches orc rho k brs = Some (Ok (orc1, rho1, tr, ret)) ->
+    env_lab L rho1 /\ Forall (ev_ok L (a_rets a2)) tr.
+  Definition PS_oblock (o : oblock) : Prop := match o with ONone => True | OSome b => PS_block b end.
+
+  Lemma store_sound L G x e t rho v :
+    tlookup x L = Some t -> expr_ok C F A L G e t = true -> env_lab L rho -> peval rho e = Ok v ->
+    env_lab L ((x, v) :: rho) /\ ev_ok L [] (TAssign x v).
+  Proof.
+    intros HL Hok Hrho Hev. destruct (expr_ok_parts _ _ _ _ Hok) as (_ & HgL & _ & HtL).
+    destruct (typed_some _ _ (expr_ok_typed _ _ _ _ Hok)) as [G1 Hi]. rewrite HtL in Hi.
+    destruct (infer_s_sound _ _ _ _ _ _ _ _ _ (env_lab_sound _ _ Hrho) HgL Hi Hev) as [Hr _].
+    split; [eapply env_lab_bind; eassumption | exists t; split; assumption].
+  Qed.
+
+  Lemma PS_bcons x r : PS_stmt x -> PS_block r -> PS_block (BCons x r).
+  Proof.
+    intros Hx Hr L outer base s st s1 st1 orc rho orc1 rho1 tr ret Hs Hw Hg Hrun Hrho Hex.
+    rewrite gd_block_cons in Hg. apply andb_true_iff in Hg as [Hgx Hgr].
+    rewrite run_block_cons in Hrun.
+    destruct (run_s s st x) as [[s2 st2]|] eqn:E; [|discriminate].
+    destruct (proj1 model_keeps_wf x L outer base s st s2 st2 Hs Hw Hgx E) as (Hs2 & Hw2 & Hk2).
+    destruct (proj1 (proj2 model_keeps_wf) r L outer base s2 st2 s1 st1 Hs2 Hw2 Hgr Hrun) as (Hs1 & Hw1 & Hk1).
+    cbn [exec_block] in Hex.
+    destruct (exec_stmt orc rho x) as [[[[o2 r2] t2] b2]|] eqn:Ex; [|discriminate].
+    destruct (Hx L outer base s st s2 st2 _ _ _ _ _ _ Hs Hw Hgx E Hrho Ex) as [Hrho2 Hev2].
+    assert (Hev2' : Forall (ev_ok L (a_rets (st_acc st1))) t2).
+    { eapply Forall_impl; [|exact Hev2]. intro e. apply ev_ok_mono. apply Hk1. }
+    destruct b2.
+    - inversion Hex; subst. split; assumption.
+    - destruct (exec_block o2 r2 r) as [[[[o3 r3] t3] b3]|] eqn:Er; [|discriminate].
+      inversion Hex; subst.
+      destruct (Hr L outer base s2 st2 s1 st1 _ _ _ _ _ _ Hs2 Hw2 Hgr Hrun Hrho2 Er) as [Hrho3 Hev3].
+      split; [exact Hrho3 | apply Forall_app; split; assumption].
+  Qed.
+
+  Lemma PS_brcons b r : PS_block b -> PS_branches r -> PS_branches (BrCons b r).
+  Proof.
+    intros Hb Hr L outerc s base p a s2 kids p2 a2 k orc rho orc1 rho1 tr ret Hs Hwc Hg Hrun Hrho Hex.
+    rewrite gd_branches_cons in Hg. apply andb_true_iff in Hg as [Hgb Hgr].
+    rewrite run_branches_cons in Hrun.
+    destruct (run_b s (mk_bstate (mk_dctx (d_types base) (d_decl base) p) [] a) b) as [[s1 stc]|] eqn:E; [|discriminate].
+    destruct (proj1 (proj2 model_keeps_wf) b L outerc (d_decl base) s _ s1 stc Hs (Hwc p a) Hgb E) as (Hs1 & Hw1 & Hk1).
+    destruct (run_brs s1 base (share_back (d_promo base) (d_promo (st_ctx stc))) (st_acc stc) r) as [[[[s3 kids3] p3] a3]|] eqn:E2; [|discriminate].
+    inversion Hrun; subst s2 kids p2 a2.
+    destruct (proj1 (proj2 (proj2 model_keeps_wf)) r L outerc s1 base _ _ s3 kids3 p3 a3 Hs1 Hwc Hgr E2) as (Hs3 & Hk3 & _).
+    cbn [exec_branches] in Hex. destruct k as [|k1].
+    - inversion Hex as [Hex']. clear Hex.
+      destruct (Hb L outerc (d_decl base) s _ s1 stc _ _ _ _ _ _ Hs (Hwc p a) Hgb E Hrho Hex') as [Hrho1 Hev1].
+      split; [exact Hrho1|]. eapply Forall_impl; [|exact Hev1]. intro e. apply ev_ok_mono. apply Hk3.
+    - exact (Hr L outerc s1 base _ _ s3 kids3 p3 a3 k1 _ _ _ _ _ _ Hs1 Hwc Hgr E2 Hrho Hex).
+  Qed.
+
+  Lemma PS_if brs els : PS_branches brs -> PS_oblock els -> PS_stmt (SIf brs els).
+  Proof.
+    intros Hbrs Hels L outer base s st s1 st1 orc rho orc1 rho1 tr ret Hs Hw Hg Hrun Hrho Hex.
+    pose proof (proj1 model_keeps_wf (SIf brs els) L outer base s st s1 st1 Hs Hw Hg Hrun) as (_ & _ & Hkall).
+    rewrite gd_stmt_if in Hg. apply andb_true_iff in Hg as [Hgb Hge].
+    rewrite run_stmt_if in Hrun. cbv zeta in Hrun.
+    destruct (run_brs s (st_ctx st) (d_promo (st_ctx st)) (st_acc st) brs) as [[[[s2 kids] p1] a1]|] eqn:Eb; [|discriminate].
+    destruct (proj1 (proj2 (proj2 model_keeps_wf)) brs L (st_decls st ++ outer) s (st_ctx st) _ _ s2 kids p1 a1 Hs
+                (fun p' a' => wf_child L outer base st p' a' Hw) Hgb Eb) as (Hs2 & Hk2 & _).
+    cbn [exec_stmt] in Hex. destruct (next orc) as [k o1].
+    (* the accumulator after the whole statement *)
+    assert (Hacc : exists a2, st_acc st1 = a2 /\ incl (a_rets a1) (a_rets a2) /\
+              match els with
+              | ONone => True
+              | OSome b => forall s3 stc, run_b s2 (mk_bstate (mk_dctx (d_types (st_ctx st)) (d_decl (st_ctx st)) p1) [] a1) b = Some (s3, stc) -> a2 = st_acc stc
+              end).
+    { destruct els as [|b].
+      - cbv iota beta in Hrun. exists a1.
+        destruct (promote_collect (d_decl (st_ctx st)) kids []); inversion Hrun; subst; (split; [reflexivity | split; [apply incl_refl | exact I]]).
+      - destruct (run_b s2 (mk_bstate (mk_dctx (d_types (st_ctx st)) (d_decl (st_ctx st)) p1) [] a1) b) as [[s3 stc]|] eqn:Ee; [|discriminate].
+        cbn [PM_oblock] in *.
+        destruct (proj1 (proj2 model_keeps_wf) b L (st_decls st ++ outer) (d_decl (st_ctx st)) s2 _ s3 stc Hs2 (wf_child L outer base st p1 a1 Hw) Hge Ee)
+          as (_ & _ & Hk3). cbn [st_acc] in Hk3.
+        exists (st_acc stc).
+        destruct (promote_collect (d_decl (st_ctx st)) (kids ++ [st_ctx stc]) []); inversion Hrun; subst;
+          (split; [reflexivity | split; [apply Hk3 | intros s4 stc4 H4; inversion H4; reflexivity]]). }
+    destruct Hacc as (a2 & Ha2 & Hincl & Helse). rewrite Ha2.
+    destruct (exec_branches o1 rho k brs) as [r|] eqn:Ebr.
+    - subst r.
+      destruct (Hbrs L (st_decls st ++ outer) s (st_ctx st) _ _ s2 kids p1 a1 k _ _ _ _ _ _ Hs
+                  (fun p' a' => wf_child L outer base st p' a' Hw) Hgb Eb Hrho Ebr) as [Hrho1 Hev1].
+      split; [exact Hrho1|]. eapply Forall_impl; [|exact Hev1]. intro e. apply ev_ok_mono. exact Hincl.
+    - destruct els as [|b].
+      + inversion Hex; subst. split; [exact Hrho | constructor].
+      + cbn [PS_oblock] in Hels.
+        destruct (run_b s2 (mk_bstate (mk_dctx (d_types (st_ctx st)) (d_decl (st_ctx st)) p1) [] a1) b) as [[s3 stc]|] eqn:Ee; [|discriminate].
+        rewrite (Helse s3 stc eq_refl).
+        exact (Hels L (st_decls st ++ outer) (d_decl (st_ctx st)) s2 _ s3 stc _ _ _ _ _ _ Hs2 (wf_child L outer base st p1 a1 Hw) Hge Ee Hrho Hex).
+  Qed.
+
+  Lemma PS_while body : PS_block body -> PS_stmt (SWhile body).
+  Proof.
+    intros Hb L outer base s st s1 st1 orc rho orc1 rho1 tr ret Hs Hw Hg Hrun Hrho Hex.
+    rewrite gd_stmt_while in Hg. apply andb_true_iff in Hg as [Hgb Hpo].
+    rewrite run_stmt_while in Hrun. cbv zeta in Hrun.
+    destruct (run_b s (mk_bstate (mk_dctx (d_types (st_ctx st)) (d_decl (st_ctx st)) (d_promo (st_ctx st))) [] (st_acc st)) body)
+      as [[s2 stc]|] eqn:E; [|discriminate].
+    assert (Hacc : st_acc st1 = st_acc stc).
+    { inversion Hrun; subst. unfold loop_promote. destruct (new_names (d_decl (st_ctx st)) (st_ctx stc)); reflexivity. }
+    rewrite Hacc. cbn [exec_stmt] in Hex. destruct (next orc) as [n o1].
+    apply (iter_while_ok (env_lab L) (ev_ok L (a_rets (st_acc stc))) (fun o r => exec_block o r body)) with (n := n) (orc := o1) (rho := rho) (orc1 := orc1) (ret := ret);
+      [|exact Hrho | exact Hex].
+    intros o r o' r' t' b' Hr Hx.
+    exact (Hb L (st_decls st ++ outer) (d_decl (st_ctx st)) s _ s2 stc _ _ _ _ _ _ Hs (wf_child L outer base st _ _ Hw) Hgb E Hr Hx).
+  Qed.
+
+  Lemma ev_relabel L i R e : ev_ok (tset L i TInt) R e -> ev_ok L R (relabel i e).
+  Proof.
+    destruct e as [x v|j v|v]; cbn [relabel ev_ok]; try (intro H; exact H).
+    intros (t & Ht & Hr). rewrite tlookup_tset in Ht. destruct (text_eqb x i).
+    - inversion Ht; subst. exact Hr.
+    - exists t. split; assumption.
+  Qed.
+
+  Lemma PS_for i body : PS_block body -> PS_stmt (SFor i body).
+  Proof.
+    intros Hb L outer base s st s1 st1 orc rho orc1 rho1 tr ret Hs Hw Hg Hrun Hrho Hex.
+    rewrite gd_stmt_for in Hg. apply andb_true_iff in Hg as [Hgb Hpo].
+    rewrite run_stmt_for in Hrun. cbv zeta in Hrun.
+    destruct (run_b s (mk_bstate (mk_dctx (tset (d_types (st_ctx st)) i TInt) (add_name (d_decl (st_ctx st)) i) (d_promo (st_ctx st))) [] (st_acc st)) body)
+      as [[s2 stc]|] eqn:E; [|discriminate].
+    assert (Hacc : st_acc st1 = st_acc stc).
+    { inversion Hrun; subst. unfold loop_promote. destruct (new_names (add_name (d_decl (st_ctx st)) i) (st_ctx stc)); reflexivity. }
+    rewrite Hacc. cbn [exec_stmt] in Hex. destruct (next orc) as [n o1].
+    destruct (iter_for (fun o r => exec_block o r body) i n 0 o1 rho) as [[[[o2 r2] t2] b2]|] eqn:Ei; [|discriminate].
+    inversion Hex; subst orc1 rho1 tr ret. clear Hex.
+    destruct (iter_for_ok (env_lab_ex i L) (env_lab (tset L i TInt)) (ev_ok (tset L i TInt) (a_rets (st_acc stc)))
+                (fun o r => exec_block o r body) i) with (n := n) (j := 0) (orc := o1) (rho := rho) (orc1 := o2) (rho1 := r2) (tr := t2) (ret := b2)
+      as [Hr2 Hev2].
+    - intros r j Hr y w Hl. unfold lookup in Hl. cbn [tlookup] in Hl. rewrite tlookup_tset.
+      destruct (text_eqb y i) eqn:Ey.
+      + inversion Hl; subst. exists TInt. split; [reflexivity | exact I].
+      + apply Hr; assumption.
+    - intros o r o' r' t' b' Hr Hx.
+      destruct (Hb (tset L i TInt) ((i, CInt) :: st_decls st ++ outer) (add_name (d_decl (st_ctx st)) i) s _ s2 stc _ _ _ _ _ _ Hs
+                  (wf_child_for L outer base st i _ _ Hw) Hgb E Hr Hx) as [Hr' Hev'].
+      split; [|exact Hev'].
+      intros y w Ey Hl. destruct (Hr' y w Hl) as (t & Ht & Hrp). rewrite tlookup_tset, Ey in Ht. exists t. split; assumption.
+    - intro j. exact I.
+    - intros y w _ Hl. apply Hrho. exact Hl.
+    - exact Ei.
+    - split.
+      + intros y w Hl. rewrite lookup_env_remove in Hl. destruct (text_eqb y i) eqn:Ey; [discriminate|].
+        apply Hr2; assumption.
+      + apply Forall_forall. intros e Hin. apply in_map_iff in Hin as (e0 & <- & Hin0).
+        apply ev_relabel. rewrite Forall_forall in Hev2. apply Hev2. exact Hin0.
+  Qed.
+
+  Theorem values_within_labels :
+    (forall x, PS_stmt x) /\ (forall b, PS_block b) /\ (forall brs, PS_branches brs) /\ (forall o, PS_oblock o).
+  Proof.
+    apply stmt_block_mutind.
+    - (* SAssign *) intros x e L outer base s st s1 st1 orc rho orc1 rho1 tr ret Hs Hw Hg Hrun Hrho Hex.
+      cbn [gd_stmt] in Hg. unfold assign_ok in Hg. destruct (tlookup x L) as [t|] eqn:HL; [|discriminate].
+      cbn [exec_stmt] in Hex. destruct (peval rho e) as [v|] eqn:Ev; [|discriminate]. inversion Hex; subst.
+      destruct (store_sound L _ x e t rho v HL Hg Hrho Ev) as [H1 H2].
+      split; [exact H1 | constructor; [|constructor]]. eapply ev_ok_mono; [|exact H2]. intros y [].
+    - (* SAug *) intros x op e L outer base s st s1 st1 orc rho orc1 rho1 tr ret Hs Hw Hg Hrun Hrho Hex.
+      cbn [gd_stmt] in Hg. apply andb_true_iff in Hg as [_ Hg].
+      unfold assign_ok in Hg. destruct (tlookup x L) as [t|] eqn:HL; [|discriminate].
+      cbn [exec_stmt] in Hex. destruct (peval rho (EBin op (EName x) e)) as [v|] eqn:Ev; [|discriminate]. inversion Hex; subst.
+      destruct (store_sound L _ x _ t rho v HL Hg Hrho Ev) as [H1 H2].
+      split; [exact H1 | constructor; [|constructor]]. eapply ev_ok_mono; [|exact H2]. intros y [].
+    - intros brs Hbrs els Hels. apply PS_if; assumption.
+    - intros body Hb. apply PS_while; exact Hb.
+    - intros i body Hb. apply PS_for; exact Hb.
+    - (* SReturn *) intros [e|] L outer base s st s1 st1 orc rho orc1 rho1 tr ret Hs Hw Hg Hrun Hrho Hex.
+      + cbn [gd_stmt] in Hg. destruct (return_step_gen L outer base s st e s1 st1 Hs Hw Hg Hrun) as (_ & _ & H3 & _).
+        destruct (ret_ok_parts _ _ _ Hg) as (_ & HgL & Hsc & _).
+        destruct (typed_some _ _ (ret_ok_typed _ _ _ Hg)) as [G1 Hi].
+        cbn [exec_stmt] in Hex. destruct (peval rho e) as [v|] eqn:Ev; [|discriminate]. inversion Hex; subst.
+        destruct (infer_s_sound _ _ _ _ _ _ _ _ _ (env_lab_sound _ _ Hrho) HgL Hi Ev) as [Hr _].
+        split; [exact Hrho | constructor; [|constructor]].
+        exists (ety F A C L e). split; [rewrite H3; apply in_or_app; right; left; reflexivity | split; assumption].
+      + cbn [exec_stmt] in Hex. inversion Hex; subst. split; [exact Hrho | constructor].
+    - (* SAssignR *) intros x r L outer base s st s1 st1 orc rho orc1 rho1 tr ret Hs Hw Hg Hrun Hrho Hex.
+      cbn [gd_stmt] in Hg. unfold assignr_ok in Hg. destruct (tlookup x L) as [t|] eqn:HL; [|discriminate].
+      apply andb_true_iff in Hg as [Hg HtL]. apply andb_true_iff in Hg as [Hg _]. apply andb_true_iff in Hg as [Hg Hty].
+      apply andb_true_iff in Hg as [_ HgL]. apply ty_eqb_eq in HtL. unfold rty in HtL.
+      destruct (infer_rhs_s F A C L r) as [[t1 G1]|] eqn:Ei; [|discriminate]. subst t1.
+      cbn [exec_stmt] in Hex. destruct (eval_rhs rho r) as [v|] eqn:Ev; [|discriminate]. inversion Hex; subst.
+      destruct (rhs_sound F A C r _ _ _ _ _ (env_lab_sound _ _ Hrho) HgL Ei Ev) as [Hr _].
+      split; [eapply env_lab_bind; eassumption | constructor; [|constructor]]. exists t. split; assumption.
+    - (* STuple *) intros xs es L outer base s st s1 st1 orc rho orc1 rho1 tr ret Hs Hw Hg. discriminate Hg.
+    - (* BNil *) intros L outer base s st s1 st1 orc rho orc1 rho1 tr ret Hs Hw Hg Hrun Hrho Hex.
+      cbn [exec_block] in Hex. inversion Hex; subst. split; [exact Hrho | constructor].
+    - intros x Hx r Hr. apply PS_bcons; assumption.
+    - (* BrNil *) intros L outerc s base p a s2 kids p2 a2 k orc rho orc1 rho1 tr ret Hs Hwc Hg Hrun Hrho Hex. discriminate Hex.
+    - intros b Hb r Hr. apply PS_brcons; assumption.
+    - exact I.
+    - intros b Hb. exact Hb.
+  Qed.
 End Ctl.
+
+(* ------------------------------------------------------------------ scripts without user functions *)
+Definition bst (ps : pstate) (decls : list (ident * cty)) : bstate :=
+  mk_bstate (p_ctx ps) decls (mk_acc (p_labels ps) [] false).
+
+Definition dyn_call_ok C := fun d sp G f sg (H : nofun (fst sp)) => call_dyn_nofun C d sp G f sg H.
+
+Lemma wf_acc L outer base st a p :
+  wf L outer base st ->
+  wf L outer base (mk_bstate (mk_dctx (d_types (st_ctx st)) (d_decl (st_ctx st)) p) (st_decls st) a).
+Proof. intro Hw. apply wf_ext; [exact Hw | reflexivity | reflexivity]. Qed.
+
+Lemma wf_same_ctx L outer base st st' :
+  wf L outer base st -> d_types (st_ctx st') = d_types (st_ctx st) -> d_decl (st_ctx st') = d_decl (st_ctx st) ->
+  st_decls st' = st_decls st -> wf L outer base st'.
+Proof.
+  intros [Hs Hl Hd Ho Hf Hb] HG Hdc Hds. constructor; rewrite ?HG, ?Hdc, ?Hds; assumption.
+Qed.
+
+Lemma run_item_stmt C ps s : is_tuple s = false ->
+  run_item C ps (IStmt s) =
+    match run_stmt fenv (call_dyn C) C (p_fe ps) (bst ps (p_globals ps)) s with
+    | None => None
+    | Some (fe1, st1) =>
+        if fe_err fe1 then None
+        else Some (mk_pstate fe1 (st_ctx st1) (st_decls st1) (p_loop ps) (a_labels (st_acc st1)))
+    end.
+Proof. destruct s; intro H; try discriminate H; reflexivity. Qed.
+
+Lemma gd_not_tuple (S : Type) call C F A L (s : S) st x : gd_stmt S call C F A L s st x = true -> is_tuple x = false.
+Proof. destruct x; intro H; try reflexivity. discriminate H. Qed.
+
+Definition ev_lab (L : tenv) (e : tev) : Prop := exists R, ev_ok L R e.
+
+Lemma stmt_item_step C L ps s ps1 :
+  nofun (p_fe ps) -> wf L [] [] (bst ps (p_globals ps)) ->
+  item_gd C L ps (IStmt s) = true -> run_item C ps (IStmt s) = Some ps1 ->
+  (nofun (p_fe ps1) /\ wf L [] [] (bst ps1 (p_globals ps1)) /\ p_loop ps1 = p_loop ps) /\
+  forall orc rho orc1 rho1 tr ret, env_lab L rho -> exec_stmt orc rho s = Ok (orc1, rho1, tr, ret) ->
+    env_lab L rho1 /\ Forall (ev_lab L) tr.
+Proof.
+  intros Hnf Hw Hg Hrun. cbn [item_gd] in Hg. fold (bst ps (p_globals ps)) in Hg.
+  rewrite (run_item_stmt C ps s (gd_not_tuple _ _ _ _ _ _ _ _ _ Hg)) in Hrun.
+  destruct (run_stmt fenv (call_dyn C) C (p_fe ps) (bst ps (p_globals ps)) s) as [[fe1 st1]|] eqn:E; [|discriminate].
+  destruct (fe_err fe1); [discriminate|]. inversion Hrun; subst ps1. clear Hrun.
+  destruct (proj1 (model_keeps_wf fenv (call_dyn C) C [] [] nofun (dyn_call_ok C)) s L [] [] _ _ _ _ Hnf Hw Hg E) as (Hnf1 & Hw1 & _).
+  split.
+  - cbn [p_fe p_ctx p_globals p_loop p_labels]. split; [exact Hnf1|]. split; [|reflexivity].
+    unfold bst. cbn [p_ctx p_globals p_labels]. eapply wf_same_ctx; [exact Hw1 | reflexivity | reflexivity | reflexivity].
+  - intros orc rho orc1 rho1 tr ret Hrho Hex.
+    destruct (proj1 (values_within_labels fenv (call_dyn C) C [] [] nofun (dyn_call_ok C)) s L [] [] _ _ _ _ _ _ _ _ _ _ Hnf Hw Hg E Hrho Hex)
+      as [H1 H2].
+    split; [exact H1|]. eapply Forall_impl; [|exact H2]. intros e He. eexists; exact He.
+Qed.
+
+Lemma pre_items_run C L : forall pre rest ps0 ps,
+  nofun (p_fe ps0) -> wf L [] [] (bst ps0 (p_globals ps0)) ->
+  items_gd C L ps0 (map IStmt pre ++ rest) = true ->
+  fold_left (step_items C) (map IStmt pre) (Some ps0) = Some ps ->
+  (nofun (p_fe ps) /\ wf L [] [] (bst ps (p_globals ps)) /\ p_loop ps = p_loop ps0 /\ items_gd C L ps rest = true) /\
+  forall orc rho orc1 rho1 tr ret, env_lab L rho -> exec_block orc rho (block_of pre) = Ok (orc1, rho1, tr, ret) ->
+    (ret = false -> env_lab L rho1) /\ Forall (ev_lab L) tr.
+Proof.
+  induction pre as [|s pre IH]; intros rest ps0 ps Hnf Hw Hg Hrun.
+  - cbn in Hrun. inversion Hrun; subst. cbn [map app] in Hg.
+    split; [split; [exact Hnf | split; [exact Hw | split; [reflexivity | exact Hg]]]|].
+    intros orc rho orc1 rho1 tr ret Hrho Hex. cbn in Hex. inversion Hex; subst. split; [intros _; exact Hrho | constructor].
+  - cbn [map app items_gd] in Hg. apply andb_true_iff in Hg as [Hgs Hgr].
+    cbn [map fold_left] in Hrun. unfold step_items at 2 in Hrun.
+    destruct (run_item C ps0 (IStmt s)) as [ps1|] eqn:E1; [|rewrite fold_none in Hrun; discriminate].
+    destruct (stmt_item_step C L ps0 s ps1 Hnf Hw Hgs E1) as [(Hnf1 & Hw1 & Hl1) Hsem1].
+    destruct (IH rest ps1 ps Hnf1 Hw1 Hgr Hrun) as [(Hnf2 & Hw2 & Hl2 & Hg2) Hsem2].
+    split; [split; [exact Hnf2 | split; [exact Hw2 | split; [congruence | exact Hg2]]]|].
+    intros orc rho orc1 rho1 tr ret Hrho Hex. cbn [block_of exec_block] in Hex.
+    destruct (exec_stmt orc rho s) as [[[[o2 r2] t2] b2]|] eqn:Ex; [|discriminate].
+    destruct (Hsem1 _ _ _ _ _ _ Hrho Ex) as [Hr2 He2]. destruct b2.
+    + inversion Hex; subst. split; [discriminate | exact He2].
+    + destruct (exec_block o2 r2 (block_of pre)) as [[[[o3 r3] t3] b3]|] eqn:Er; [|discriminate].
+      inversion Hex; subst. destruct (Hsem2 _ _ _ _ _ _ Hr2 Er) as [Hr3 He3].
+      split; [exact Hr3 | apply Forall_app; split; assumption].
+Qed.
+
+Definition ev_decl (D : list (ident * cty)) (e : tev) : Prop :=
+  match e with
+  | TAssign x v => exists c, tlookup x D = Some c /\ crepr c v
+  | TLoopVar _ v => crepr CInt v
+  | TReturn _ => True
+  end.
+
+Lemma ev_lab_decl L D e :
+  (forall x t, tlookup x L = Some t -> tlookup x D = Some (cpp_type t)) -> ev_lab L e -> ev_decl D e.
+Proof.
+  intros HD [R He]. destruct e as [x v|i v|v]; cbn in *.
+  - destruct He as (t & Ht & Hr). exists (cpp_type t). split; [apply HD; exact Ht | apply repr_crepr; exact Hr].
+  - apply (repr_crepr TInt). exact He.
+  - exact I.
+Qed.
+
+Lemma wf0 L : wf L [] [] (bst pstate0 (p_globals pstate0)).
+Proof.
+  constructor; cbn.
+  - intros x t H; discriminate H.
+  - intro x; reflexivity.
+  - intros x t H; discriminate H.
+  - intros x c H; discriminate H.
+  - intros x [].
+  - intros x H; discriminate H.
+Qed.
+
+(* Every value any path of a script (statements at column 0 with their nested if / elif / else, while, for blocks, then
+   any number of passes of the `while True:` body) stores into a name is held by the C type that name is declared with:
+   a global, or a local of loop(); the target of a for loop by the `int` of its header. *)
+Theorem script_covers :
+  forall C pre main ps orc orc1 rho tr ret,
+    script_guard C pre main = true ->
+    run_items C (script_items pre main) = Some ps ->
+    exec_prog orc pre main = Ok (orc1, rho, tr, ret) ->
+    Forall (ev_decl (p_loop ps ++ p_globals ps)) tr.
+Proof.
+  intros C pre main ps orc orc1 rho tr ret Hg Hrun Hex.
+  unfold script_guard in Hg. rewrite Hrun in Hg. set (L := d_types (p_ctx ps)) in *.
+  unfold script_items in *. rewrite run_items_fold, fold_left_app in Hrun.
+  destruct (fold_left (step_items C) (map IStmt pre) (Some pstate0)) as [ps1|] eqn:E1; [|cbn in Hrun; discriminate].
+  destruct (pre_items_run C L pre [ILoop main] pstate0 ps1 (proj1 (conj (conj eq_refl (conj eq_refl (conj eq_refl eq_refl))) I)) (wf0 L) Hg E1)
+    as [(Hnf1 & Hw1 & Hl1 & Hg1) Hsem1].
+  cbn [fold_left step_items run_item] in Hrun. cbn [items_gd item_gd] in Hg1. apply andb_true_iff in Hg1 as [Hgm _].
+  cbn [p_loop pstate0] in Hl1. rewrite Hl1 in Hrun, Hgm.
+  destruct (run_block fenv (call_dyn C) C (p_fe ps1) (mk_bstate (p_ctx ps1) [] (mk_acc (p_labels ps1) [] false)) main)
+    as [[fe2 st2]|] eqn:E2; [|discriminate].
+  destruct (fe_err fe2); [discriminate|]. inversion Hrun; subst ps. clear Hrun.
+  cbn [p_ctx p_loop p_globals] in *.
+  assert (Hwl : wf L (p_globals ps1 ++ []) (d_decl (p_ctx ps1)) (mk_bstate (p_ctx ps1) [] (mk_acc (p_labels ps1) [] false))).
+  { pose proof (wf_child L [] [] _ (d_promo (p_ctx ps1)) (mk_acc (p_labels ps1) [] false) Hw1) as H.
+    eapply wf_same_ctx; [exact H | reflexivity | reflexivity | reflexivity]. }
+  destruct (proj1 (proj2 (model_keeps_wf fenv (call_dyn C) C [] [] nofun (dyn_call_ok C))) main L _ _ _ _ _ _ Hnf1 Hwl Hgm E2)
+    as (_ & Hw2 & _).
+  assert (HD : forall x t, tlookup x L = Some t -> tlookup x (st_decls st2 ++ p_globals ps1) = Some (cpp_type t)).
+  { intros x t Ht. pose proof (wf_decl _ _ _ _ Hw2 x t Ht) as H. rewrite app_nil_r in H. exact H. }
+  unfold exec_prog in Hex.
+  destruct (exec_block orc [] (block_of pre)) as [[[[o1 r1] t1] b1]|] eqn:Ep; [|discriminate].
+  assert (Hrho0 : env_lab L []) by (intros x v H; discriminate H).
+  destruct (Hsem1 _ _ _ _ _ _ Hrho0 Ep) as [Hr1 He1].
+  assert (He1' : Forall (ev_decl (st_decls st2 ++ p_globals ps1)) t1).
+  { eapply Forall_impl; [|exact He1]. intro e. apply ev_lab_decl. exact HD. }
+  destruct b1.
+  - inversion Hex; subst. exact He1'.
+  - destruct (next o1) as [n o2].
+    destruct (iter_while (fun o r => exec_block o r main) n o2 r1) as [[[[o3 r3] t3] b3]|] eqn:Ew; [|discriminate].
+    assert (He3 : Forall (ev_lab L) t3).
+    { destruct (iter_while_ok (env_lab L) (ev_lab L) (fun o r => exec_block o r main)) with (n := n) (orc := o2) (rho := r1) (orc1 := o3) (rho1 := r3) (tr := t3) (ret := b3)
+        as [_ He3]; [|apply Hr1; reflexivity | exact Ew | exact He3].
+      intros o r o' r' t' b' Hr Hx.
+      destruct (proj1 (proj2 (values_within_labels fenv (call_dyn C) C [] [] nofun (dyn_call_ok C))) main L _ _ _ _ _ _ _ _ _ _ _ _ Hnf1 Hwl Hgm E2 Hr Hx)
+        as [H1 H2]. split; [exact H1|]. eapply Forall_impl; [|exact H2]. intros e He. eexists; exact He. }
+    inversion Hex; subst. apply Forall_app. split; [exact He1'|].
+    eapply Forall_impl; [|exact He3]. intro e. apply ev_lab_decl. exact HD.
+Qed.
